@@ -26,9 +26,11 @@ from rsatoolbox.inference import bootstrap as B
 from lean import rat
 from engines import C09_r3 as R3
 from engines import C09_r4 as R4
+from engines import C09_r6 as R6
 
 OPS = dict(R3.OPS)
 OPS.update(R4.OPS)
+OPS.update(R6.OPS)
 
 PROPERTY = 'C09'
 LEVEL = 'proof'
@@ -49,7 +51,10 @@ THEOREMS = [P + n for n in (
     'boot_testset_pattern_spec', 'equal_frequency_symmetric', 'equal_frequency_of_uniform',
     # round 4: no hidden state — in-place operations between draws
     'subsamplePattern_eq_gather', 'gather_entry', 'sample_after_inplace', 'inplace_same_conditions',
-    'session_no_hidden_state', 'draw_reorder_draw')]
+    'session_no_hidden_state', 'draw_reorder_draw',
+    # round 6: large stacks — every RDM incl. the last, block-wise evaluation, restriction to some RDMs
+    'sample_every_rdm', 'blockwise_eq', 'blocks_cover', 'subsamplePattern_rdm_local',
+    'largeSample_full')]
 RULE = ('one PRNG; stacks of 1-5 RDMs x 2-8 conditions with unique integer tags as '
         'dissimilarities (some source entries NaN or 0), built from vectors or matrices; grouping '
         'descriptors int or str, unique or repeated, list or numpy array, default `index` or a '
@@ -61,7 +66,10 @@ RULE = ('one PRNG; stacks of 1-5 RDMs x 2-8 conditions with unique integer tags 
         'named and value a scalar, list, tuple or array of (repeated, possibly absent) values; '
         'multi-step sessions on ONE object (draw, then sort_by / reorder / append / write to '
         '.dissimilarities / descriptor edit in place, then draw again, also with models whose rdm_obj is '
-        'reordered alike), every draw judged against the current labelled content.  A case is '
+        'reordered alike), every draw judged against the current labelled content; LARGE stacks '
+        '(100-3500 RDMs x 8-128 conditions, e.g. 300 x 64, 120 x 100, 3000 x 20, sizes just past '
+        'multiples of 2^16..2^20 / n_cond^2; 1-5 RDMs x 150-1200 conditions) with formula-defined '
+        'provenance tags, judged entry by entry with vectorised numpy.  A case is '
         'non-trivial when the sample differs from the source (a group left out or drawn twice); '
         'distinct = distinct (mode, stack, descriptors, draws).')
 BRANCHES = ['mode:both', 'mode:rdm', 'mode:pattern', 'desc:int', 'desc:str', 'container:list',
@@ -91,7 +99,13 @@ BRANCHES = ['mode:both', 'mode:rdm', 'mode:pattern', 'desc:int', 'desc:str', 'co
             'inplace:multi_op', 'inplace:model', 'inplace:model_predict', 'inplace:model_rdm_obj',
             'inplace:from_initial', 'inplace:fn_pattern', 'inplace:fn_both', 'inplace:fn_rdm',
             'inplace:fn_direct', 'inplace:regroup_rdm', 'inplace:append_between', 'inplace:model_reordered',
-            'inplace:model_fixed', 'inplace:model_select', 'inplace:model_weighted', 'inplace:model_interp']
+            'inplace:model_fixed', 'inplace:model_select', 'inplace:model_weighted', 'inplace:model_interp',
+            # round 6: large stacks (many RDMs: more than any internal block; many conditions)
+            'op:large', 'size:many-rdms', 'size:many-conds', 'size:last-rdm-checked',
+            'size:over-2^20-matrix-entries', 'size:conds-over-1024', 'large:fn_pattern', 'large:fn_both',
+            'large:fn_rdm', 'large:fn_direct', 'large:lean_restriction', 'large:lean_restricted_conds',
+            'large:by_named', 'large:by_default', 'large:values_not_float32',
+            'large:twin_same_shape']
 ASSUMPTIONS = [
     'np.random.randint(0, n, size=n) returns n integers in [0, n) (checked on every recorded '
     'call); its uniformity is trusted and only sanity-checked by the 6-sigma frequency cases',
@@ -973,6 +987,7 @@ def _round3_stream(rng, scale):
         yield R3.make_fx(rng)
     for i in range(200 * scale):
         yield R4.make_inplace(rng, with_models=(i % 10 < 4))
+    yield from R6.stream(rng, 'quick' if scale == 1 else 'thorough')
 
 
 def _all_draws(m):
@@ -1045,6 +1060,8 @@ def search(rng, tier):
             yield R4.make_inplace(rng)
         if i % 200 == 0:
             yield R3.make_fx(rng)
+        if i % 40 == 2:
+            yield R6.make_large(rng)
 
 
 def _fix_draws(c):
@@ -1082,6 +1099,8 @@ def shrink(case, still_fails):
         return R3.shrink_session(case, still_fails)
     if case.get('op') == 'inplace':
         return R4.shrink_inplace(case, still_fails)
+    if case.get('op') == 'large':
+        return R6.shrink_large(case, still_fails)
     if case.get('op') in ('freq', 'resample') or case.get('op') in OPS or case.get('nested'):
         return case
     cur = json.loads(json.dumps(case))
